@@ -94,6 +94,14 @@ func c07Shapes(tier string) []c07shape {
 		{name: "terminating-future-deref-after-sleep", text: "(let [f (future (do (sleep 40) (t! 1) 7))] (sleep 20) (t! 2) (deref f))", future: true},
 		{name: "terminating-future-throws", text: "(try (deref (future (do (sleep 30) (throw 3)))) (catch e (t! :h) e))", future: true, depth: 1},
 		{name: "terminating-sleep-in-try", text: "(try (do (sleep 50) (t! 1) 7) (catch e (t! :h) 0) (finally (t! :fin)))", finally: true, depth: 1},
+		// text in constructor notation read at run time, with a constructor name the program bound to a
+		// builtin that waits: whatever read-string does with it, the wait afterwards ends with the context
+		{name: "constructor-notation-read-at-run-time", text: "(do (try (read-string \"«nap 100000»\") (catch e (t! :h) nil)) (sleep 100000))", depth: 1},
+		{name: "constructor-notation-read-in-handler", text: "(try (sleep 100000) (catch e (t! :h) (try (read-string \"«nap 100000»\") (catch e2 nil)) 5))", handler: true, depth: 1},
+		// a future cancelled by the program and dereferenced afterwards (once, twice, in a handler)
+		{name: "deref-of-cancelled-future", text: "(let [f (future (sleep 100000))] (future-cancel f) (sleep 10) (t! 1) (try (deref f) (catch e (t! :h) 5)))", future: true, depth: 1},
+		{name: "deref-twice-of-cancelled-future", text: "(let [f (future (sleep 100000))] (future-cancel f) (try (deref f) (catch e (t! :h) 5)) (sleep 10) (try (deref f) (catch e (t! :h) 6)) (sleep 100000))", future: true, depth: 1},
+		{name: "deref-of-cancelled-future-in-handler", text: "(let [f (future (sleep 100000))] (future-cancel f) (sleep 10) (try (throw 1) (catch e (t! :h) (try (deref f) (catch e2 5))) (finally (t! :fin))))", future: true, finally: true, depth: 1},
 		{name: "future-loop-around-deref", text: "(let [f (future (lp 0))] (try (deref f) (catch e (t! :h) (lp 0)) (finally (t! :fin) (lp 0))))", future: true, finally: true, depth: 1},
 	}
 	// every (try P (catch e Q) (finally R)) with P, Q, R from the atoms; thorough: P may be a nested try
@@ -184,6 +192,11 @@ func (rg *c07rig) setup() {
 		}
 		return nil, nil
 	})
+	// a name the reader would take for a constructor, bound (at the root, like a program's own top-level
+	// definition) to a builtin that waits
+	if _, err, p := lx.Eval(context.Background(), lx.MustRead("(def new-nap sleep)"), rg.base); err != nil || p != nil {
+		panic("c07 setup")
+	}
 	call.CallOverrideFN(rg.base, "t!", func(c types.MalType) (types.MalType, error) {
 		rg.trace = append(rg.trace, model.FromImpl(c).String())
 		var t int64 = -1
